@@ -180,6 +180,9 @@ func (s *MonitoredItemService) CreateMonitoredItems(sc *uasc.SecureChannel, r ua
 	}
 
 	sess := s.SubService.srv.Session(req.RequestHeader)
+	if sess == nil || sub.Session == nil {
+		return nil, ua.StatusBadSessionIDInvalid
+	}
 	if sub.Session.AuthTokenID.String() != sess.AuthTokenID.String() {
 		return nil, errors.New("not your subscription, bro")
 	}
@@ -278,13 +281,15 @@ func (s *MonitoredItemService) SetMonitoringMode(sc *uasc.SecureChannel, r ua.Re
 	for i := range req.MonitoredItemIDs {
 		id := req.MonitoredItemIDs[i]
 		item, ok := s.Items[id]
-
-		if item.Sub.Session.AuthTokenID.String() != sess.AuthTokenID.String() {
-			results[i] = ua.StatusBadSessionIDInvalid
+		if !ok || item == nil {
+			results[i] = ua.StatusBadMonitoredItemIDInvalid
+			continue
 		}
 
-		if !ok {
-			results[i] = ua.StatusBadMonitoredItemIDInvalid
+		// only the owning session may change an item
+		if sess == nil || item.Sub == nil || item.Sub.Session == nil ||
+			item.Sub.Session.AuthTokenID.String() != sess.AuthTokenID.String() {
+			results[i] = ua.StatusBadSessionIDInvalid
 			continue
 		}
 		item.Mode = req.MonitoringMode
@@ -339,12 +344,16 @@ func (s *MonitoredItemService) DeleteMonitoredItems(sc *uasc.SecureChannel, r ua
 	for i := range req.MonitoredItemIDs {
 		id := req.MonitoredItemIDs[i]
 		item, ok := s.Items[id]
-		if !ok {
+		if !ok || item == nil {
 			results[i] = ua.StatusBadMonitoredItemIDInvalid
+			continue
 		}
 
-		if item.Sub.Session.AuthTokenID.String() != sess.AuthTokenID.String() {
+		// only the owning session may delete an item
+		if sess == nil || item.Sub == nil || item.Sub.Session == nil ||
+			item.Sub.Session.AuthTokenID.String() != sess.AuthTokenID.String() {
 			results[i] = ua.StatusBadSessionIDInvalid
+			continue
 		}
 
 		// this function gets the lock so we need to do it in the background so it can happen after our lock is released.
